@@ -111,52 +111,7 @@ theorem flush_depends_on_objects_only (P : Prim) (del : Bool) (s₁ s₂ : St) (
 
 /-! ## 4. commit, then reopen from the three roots -/
 
-/-- `RlpRT` is C14's round-trip theorem for the untyped codec of YouVerif/Common/Rlp.lean, taken as a hypothesis
-here (the record *shapes* — `valItem`/`valOfItem`, … — are proved to round-trip in Proofs.lean). -/
-def RlpRT : Prop := ∀ i, dec (enc i) = some i
-
-/-- Reopening from the three roots `Commit` returned succeeds, yields exactly the three committed tries and the
-database, and the statistics, withdraw queue, validator index and pending relationships it loads are the live ones. -/
-theorem reopen_eq_loads (P : Prim) (del : Bool) (s : St) (hrt : RlpRT) (hr : CohR s) :
-    openSt (commit P del s).db (roots P (commit P del s)) =
-      some { db := (commit P del s).db, t := (commit P del s).t, index := sortKeys (commit P del s).index,
-             stat := (commit P del s).stat, queue := (commit P del s).queue, relats := (commit P del s).relats } :=
-  reopen_loads P del s hrt hr
-
-/-- … and every validator and every staking record the reopened state shows is the one the live object shows
-(deleted validators are absent on both sides), for coherent caches (`CohV`, `CohS`: a clean live object equals its
-leaf — true of the empty state and preserved by every flush, `iroot_cohV` / `iroot_cohS`). -/
-theorem reopen_eq_validators_records (P : Prim) (del : Bool) (s : St) (hrt : RlpRT) (hv : CohV s) (hs : CohS s) (hr : CohR s) :
-    ∃ s', openSt (commit P del s).db (roots P (commit P del s)) = some s' ∧
-      s'.stat = (commit P del s).stat ∧ s'.queue = (commit P del s).queue ∧ s'.relats = (commit P del s).relats ∧
-      (∀ a, getVal s' a = getVal (commit P del s) a) ∧ (∀ k, getSRec s' k = getSRec (commit P del s) k) :=
-  ⟨{ db := (commit P del s).db, t := (commit P del s).t, index := sortKeys (commit P del s).index,
-     stat := (commit P del s).stat, queue := (commit P del s).queue, relats := (commit P del s).relats },
-   reopen_loads P del s hrt hr, rfl, rfl, rfl,
-   fun a => reopen_getVal P del s hrt hv
-     { db := (commit P del s).db, t := (commit P del s).t, index := sortKeys (commit P del s).index,
-       stat := (commit P del s).stat, queue := (commit P del s).queue, relats := (commit P del s).relats } rfl rfl a,
-   fun k => reopen_getSRec P del s hrt hs
-     { db := (commit P del s).db, t := (commit P del s).t, index := sortKeys (commit P del s).index,
-       stat := (commit P del s).stat, queue := (commit P del s).queue, relats := (commit P del s).relats } rfl rfl k⟩
-
-/-- hypotheses are satisfiable: the empty state is coherent -/
-example : CohV {} ∧ CohS {} ∧ CohR {} ∧ ∀ P, CohA P {} := by
-  refine ⟨?_, ?_, ?_, ?_⟩
-  · intro a v h; simp [aget] at h
-  · intro k r h; simp [aget] at h
-  · intro _; right; exact ⟨rfl, rfl⟩
-  · intro P a o h; simp [aget] at h
-
-/-- full statement of reopen equality (accounts with storage, code and delegation lists included).  Not proved: the
-account part needs the resolution of storage roots / code hashes / delegation hashes in the content-addressed
-database, i.e. coherence of the database along whole histories and collision-freeness of `P.H` / `P.root` on the
-values actually stored.  Sampled by the correspondence check and the reopen oracle instead. -/
-def reopen_eq_statement : Prop :=
-  ∀ (P : Prim) (ops : List Op) (del : Bool), RlpRT →
-    (∀ c₁ c₂, P.root c₁ = P.root c₂ → c₁ = c₂) → (∀ b₁ b₂, P.H b₁ = P.H b₂ → b₁ = b₂) →
-    let s := run P {} ops
-    ∃ s', openSt (commit P del s).db (roots P (commit P del s)) = some s' ∧ obs P s' = obs P (commit P del s)
+-- (section rewritten below once the whole-history theorems are in place)
 
 /-! ## 5. a copy is equal to and independent of the original (value semantics) -/
 
